@@ -234,7 +234,7 @@ def load_known(prop_id):
 # written by harness/py2lean.py on every run) belong to which property, and which source files they render.
 SRC_TIE = {
     'C01': ['Codec', 'Msg'], 'C02': ['Codec', 'Msg', 'MsgDecision'], 'C03': ['Codec'],
-    'C04': ['Tok', 'Parser', 'ParserSession'], 'C05': ['Tok', 'Parser', 'ParserSession'], 'C06': ['Tok', 'Parser', 'ParserSession'], 'C18': ['Tok', 'Sockets'], 'C19': ['Tok', 'Parser', 'Syx'],
+    'C04': ['Tok', 'Parser', 'ParserSession', 'ParserResync'], 'C05': ['Tok', 'Parser', 'ParserSession'], 'C06': ['Tok', 'Parser', 'ParserSession', 'ParserResync'], 'C18': ['Tok', 'Sockets'], 'C19': ['Tok', 'Parser', 'Syx'],
     'C07': ['Vlq', 'VlqRead', 'Tracks', 'Writer', 'Reader', 'FileRoundTrip'], 'C08': ['Vlq', 'VlqRead', 'Writer', 'Reader', 'FileConformance'], 'C09': ['Meta', 'Vlq', 'MetaFrame', 'MetaRoundTrip'], 'C10': ['Ports', 'PortsIter'], 'C11': ['Ports', 'PortsIter', 'PortsLifecycle'],
     'C12': ['Tracks', 'TracksMerge'], 'C13': ['Timing'], 'C17': ['Charset'], 'C16': ['Tracks', 'MergedTrack'],
 }
@@ -255,6 +255,7 @@ SRC_TIE_FILES = {
     'MsgDecision': ['mido/messages/decode.py', 'mido/messages/encode.py', 'mido/messages/specs.py'],
     'MetaRoundTrip': ['mido/midifiles/meta.py'],
     'ParserSession': ['mido/parser.py', 'mido/tokenizer.py'],
+    'ParserResync': ['mido/parser.py', 'mido/tokenizer.py'],
     'FileRoundTrip': ['mido/midifiles/midifiles.py', 'mido/midifiles/tracks.py', 'mido/midifiles/meta.py'],
     'Msg': ['mido/messages/decode.py', 'mido/messages/encode.py', 'mido/messages/specs.py'],
     'Tok': ['mido/tokenizer.py'],
